@@ -1449,7 +1449,11 @@ impl Linearizer {
         constraints: Vec<Constraint>,
         mut domain: IndexMap<String, DomainVariable>,
     ) -> Self {
-        let bounds = BoundsAnalyzer::analyze(&domain, &constraints);
+        let normalized_constraints = constraints
+            .iter()
+            .map(Constraint::normalized)
+            .collect::<Vec<_>>();
+        let bounds = BoundsAnalyzer::analyze(&domain, &normalized_constraints);
         bounds.apply_to_domain(&mut domain);
         Self::new_from_with_bounds(constraints, domain, bounds)
     }
@@ -1547,7 +1551,13 @@ impl Linearizer {
     /// * `Err(LinearizationError)` - If linearization fails
     pub fn linearize(model: Model) -> Result<LinearModel, LinearizationError> {
         let (objective, constraints, mut domain) = model.into_components();
-        let bounds = BoundsAnalyzer::analyze(&domain, &constraints);
+        // bounds are inferred from the normalised constraints: inference must not
+        // depend on how a constant coefficient happens to be spelled
+        let normalized_constraints = constraints
+            .iter()
+            .map(Constraint::normalized)
+            .collect::<Vec<_>>();
+        let bounds = BoundsAnalyzer::analyze(&domain, &normalized_constraints);
         bounds.apply_to_domain(&mut domain);
         let mut context = Linearizer::new_from_with_bounds(constraints, domain, bounds);
         let objective_type = objective.objective_type.clone();
